@@ -296,6 +296,8 @@ def _register():
 
 def geneos_cell(cfg, t, s):
     """Internal grid cell of the general-EOS solver: (padded window) / num_x_pts; read from the public attribute x."""
+    if not hasattr(s, "x"):       # the grid exists only after a call
+        call(s, np.array([cfg.get("xd0", 0.5)]), t)
     x = np.asarray(s.x, float)
     return float(np.max(np.diff(x)))
 
